@@ -266,7 +266,8 @@ def c14(ctx):
                 (HISTORIES[2], "tcp", signal.SIGTERM), (HISTORIES[3], "unix", signal.SIGTERM),
                 (HISTORIES[4], "tcp", signal.SIGTERM), (HISTORIES[8], "unix", signal.SIGTERM),
                 (HISTORIES[9], "tcp", signal.SIGTERM), (HISTORIES[10], "unix", signal.SIGTERM),
-                (HISTORIES[4], "unix", signal.SIGTERM, True), (HISTORIES[3], "tcp", signal.SIGQUIT, True)]
+                (HISTORIES[4], "unix", signal.SIGTERM, True), (HISTORIES[3], "tcp", signal.SIGQUIT, True),
+                (HISTORIES[6], "unix", signal.SIGTERM), (HISTORIES[7], "tcp", signal.SIGQUIT)]
     else:
         plan = [(h, b, sg) for h in HISTORIES for b in ("tcp", "unix") for sg in (signal.SIGTERM, signal.SIGQUIT)]
         plan += [(HISTORIES[k], b, signal.SIGTERM, True) for k in (0, 1, 3, 4, 6, 7) for b in ("tcp", "unix")]
